@@ -225,7 +225,9 @@ class CallMixin(object):
             if attr in k.__dict__:
                 raw = k.__dict__[attr]
                 if isinstance(raw, _types.FunctionType):
-                    return mk(BoundMethod(raw, sp.selfv, k))
+                    bm = BoundMethod(raw, sp.selfv, k)
+                    bm.exact = True          # super() binds exactly this function: no dynamic dispatch
+                    return mk(bm)
                 if isinstance(raw, property):
                     raise OutOfReach('super() property access')
                 if k is object:
@@ -375,7 +377,8 @@ class CallMixin(object):
             raise OutOfReach('call of %r' % (fn,))
         f = fn.py
         if isinstance(f, BoundMethod):
-            return self.call_function(st, f.func, [f.selfv] + args, kwargs, fr, defcls=f.defcls)
+            return self.call_function(st, f.func, [f.selfv] + args, kwargs, fr, defcls=f.defcls,
+                                      exact=getattr(f, 'exact', False))
         if isinstance(f, BoundBuiltin):
             return self.call_builtin_method(st, f.recv, f.name, args, kwargs, fr)
         if isinstance(f, LambdaV):
@@ -418,15 +421,20 @@ class CallMixin(object):
         except (KeyError, IOError, OSError):
             return None
 
-    def call_function(self, st, fn, args, kwargs, fr, defcls=None):
+    def call_function(self, st, fn, args, kwargs, fr, defcls=None, exact=False):
         key = func_key(fn)
         contract = self.world.contracts.get(key)
+        if exact:
+            # statically bound call (super()): the implementation contract, not the interface, if there is one
+            impl = self.world.contracts.get(key + '[impl]')
+            if impl is not None:
+                return self.apply_contract(st, impl, fn, args, kwargs, fr)
         # dynamic dispatch: if the receiver's static class has subclasses overriding this method, the call must
         # go through an interface contract
         is_own_self = bool(args) and not args[0].is_py and args[0].term is not None and str(args[0].term) == 'p.self'
         if args and not args[0].is_py and args[0].ty.kind == 'obj' and defcls is not None \
                 and args[0].ty.args[0] in self.world.classes and not (getattr(self, 'exact_self', False) and is_own_self):
-            over = self.overriders(args[0].ty.args[0], fn)
+            over = self.overriders(args[0].ty.args[0], fn) if not exact else []
             if over and (contract is None or not contract.interface):
                 if not (len(self.call_stack) and self.call_stack[-1][1] is args[0] and False):
                     raise OutOfReach('call of %s on static type %s is overridden in %s and has no interface contract'
